@@ -97,7 +97,7 @@ def run(ctx):
                     ctx.violation("R10.2", key + "/endlib", "%s: this loop is fed only by the record source, which returns ENDLIB for ever once it is reached, and nothing in the loop sends an ENDLIB record out of it: a stream that ends the library early makes the reader spin" % f.short, b.site(header), key + "/endlib")
                     continue
             ctx.ok("R10.2", key, "consumes a record per cycle; ENDLIB leaves the loop")
-    ctx.floor("R10.2", "reader_loops", n_loops, 10)
+    ctx.floor("R10.2", "reader_loops", n_loops, 4)
 
     # ---- R10.4 header before payload
     ctx.rule("R10.4", "the payload decoder is only called with a header that the header reader returned successfully")
